@@ -14,8 +14,36 @@ MODULES = ["DV.Properties.C04"]
 DECODE_ERRS = {"EXC ConversionError", "EXC AvpDecodeError"}
 
 
+def malformed(ty: int, p: bytes) -> bool:
+    """Independent statement of 'the payload is malformed for its type' (RFC 6733 4.2/4.3), only where it is clear-cut:
+    fixed-size types of another size, invalid UTF-8, an Address too short for its family field or of the wrong size for
+    IPv4/IPv6."""
+    if ty in (2, 5, 8, 11):
+        return len(p) != 4
+    if ty in (3, 6, 9):
+        return len(p) != 8
+    if ty == 10:
+        try:
+            p.decode("utf-8")
+            return False
+        except UnicodeDecodeError:
+            return True
+    if ty == 1:
+        if len(p) < 2:
+            return True
+        fam = int.from_bytes(p[:2], "big")
+        return (fam == 1 and len(p) != 6) or (fam == 2 and len(p) != 18)
+    return False        # (Grouped: the library reads members with a too small length field leniently; not judged here)
+
+
 def classify(line: str, r: str, fails: list, res: Result):
     cmd = line.split(" ", 1)[0]
+    if cmd == "AVPVAL" and not r.startswith(("EXC", "UNSTABLE")):
+        t = line.split(" ")
+        if malformed(int(t[1]), bytes.fromhex(t[2]) if len(t) > 2 else b""):
+            fails.append({"what": "a payload that is malformed for its type was read as a value instead of raising the "
+                                  "documented AVP decode error", "line": line[:600], "real": r[:200]})
+            return
     if r == "EXC Timeout(skipped)":
         return
     if r.startswith("UNSTABLE"):
@@ -91,6 +119,23 @@ def run_cases(res: Result, rng: random.Random, n_msgs: int, n_random: int, fails
         body = b"".join(gen.avpobj_wire(a) for a in avps)
         msgs.append(gen.rfc_header(1, 20 + len(body), flags, code, rng.getrandbits(32), rng.getrandbits(32),
                                    rng.getrandbits(32)) + body)
+    # repeated AVPs of one name (2..3 times) of every type, at top level and inside a grouped AVP, in commands with and
+    # without a typed class (an untyped message collects repeated AVPs into a list under the AVP's name)
+    by_ty_codes = {}
+    for code_e, vendor_e, e in entries():
+        by_ty_codes.setdefault(ty_of(e["type"](0)), []).append((code_e, vendor_e))
+    samples = {1: [b"\x00\x01\x0a\x00\x00\x01", b"\x00\x02" + bytes(16), b"\x00\x08123"], 2: [bytes(4)], 3: [bytes(8)],
+               5: [bytes(4)], 6: [bytes(8)], 7: [b"oct"], 8: [b"\x00\x00\x00\x07"], 9: [bytes(8)], 10: [b"text"],
+               11: [b"\xe0\x00\x00\x00"], 4: [gen.rfc_wire(263, 0, 0x40, b"s")]}
+    for ty_k, payloads in samples.items():
+        for (code_e, vendor_e) in by_ty_codes.get(ty_k, [])[:2]:
+            for reps in (2, 3):
+                one = [gen.rfc_wire(code_e, vendor_e, (0x80 if vendor_e else 0) | 0x40, payloads[i % len(payloads)]) for i in range(reps)]
+                body = b"".join(one)
+                for code_m in (999, 7777, 257, 272):
+                    msgs.append(gen.rfc_header(1, 20 + len(body), 0x80, code_m, 4, 1, 2) + body)
+                    grp = gen.rfc_wire(456, 0, 0x40, body)
+                    msgs.append(gen.rfc_header(1, 20 + len(grp), 0x80, code_m, 4, 1, 2) + grp)
     # deep nesting (depth 16) of one grouped AVP
     inner = gen.rfc_wire(263, 0, 0x40, b"x")
     for _ in range(16):
